@@ -501,7 +501,12 @@ func worker(c *fw.Ctx) *fw.Stats {
 		}
 		msg, src := checkCase(k, ops)
 		st.Evals++
-		st.Nontrivial++
+		if (k.Layout != layout{}) || (k.LinkL != layout{}) {
+			// the position table has to encode at least one non-default delta
+			st.Nontrivial++
+		} else {
+			st.Count("cases_in_default_layout", 1)
+		}
 		st.Outcome(k.Op + "/" + fmt.Sprint(len(k.Links)))
 		if idx%20011 == 0 {
 			s := src
@@ -550,7 +555,7 @@ func init() {
 		Level: "exploration",
 		Rule: "call chains of depth 1-8 (links: direct call, lambda, comprehension, sorted/max key callback, call as method argument; all link sequences up to a length) x 23 failing operation kinds x layouts: " +
 			"all combinations of column boundaries {0,1,29..34,61..66} and line-break boundaries {0,1,14..17,30..33} for the operator token and the right operand (two-row windows), pc fillers {0..17 constants, 0..8 statements}, the same on calling frames, and extremes (column 10^4, 10^5 blank lines, 3000 instructions); " +
-			"oracle: every CallStack frame names the right function at exactly the (line, col) where the renderer wrote the call's '(' or the failing operator token, built-in frames in place, Backtrace() lists the same frames in order; every case is non-trivial (each fails and is compared frame by frame)",
+			"oracle: every CallStack frame names the right function at exactly the (line, col) where the renderer wrote the call's '(' or the failing operator token, built-in frames in place, Backtrace() lists the same frames in order; every case fails and is compared frame by frame; non-trivial = cases (all distinct by construction) whose failing or calling frame is rendered in a non-default layout, i.e. whose position table has to encode at least one non-minimal line/column/pc delta",
 		Run: run, Worker: worker, Replay: replay,
 		Assumptions: []string{
 			"the failure position of an operation is the start of its operator token (binary/unary operator, '(' of a call, '[' of index/slice, '.' of attribute, ':' of a dict entry, '=' or 'for' of an unpack, identifier of an unbound variable); for 'not in' the position of 'in'",
